@@ -302,6 +302,40 @@ fn pclose_then_second_action(liq_first: bool) -> impl Fn() {
     }
 }
 
+/// the second action is a ClosePosition that takes the PARTIAL arm (whole close would leave the
+/// band): eve (small, shallow under water) is partially liquidated inside the band, carol (large)
+/// topped up her short earlier in that block; her close must be rejected like any second action
+fn pclose_as_second_action() {
+    let mut cfg = Cfg::base(false, 9);
+    let d = cfg.d();
+    cfg.init_ratio = Uint128::new(d / 10);
+    cfg.partial_ratio = Uint128::new(d / 4);
+    cfg.liq_fee = Uint128::new(d / 100);
+    let mut r = Run::new(cfg, Mon::none());
+    symrt::set_full(false);
+    assert!(r.step(Op::Open { who: EVE, side: Side::Buy, margin: Uint128::new(25 * d / 10), lev: Uint128::new(10 * d), limit: Uint128::zero(), funds: None }).tx.ok);
+    r.w.next_block(15);
+    assert!(r.step(Op::Open { who: CAROL, side: Side::Sell, margin: Uint128::new(20 * d), lev: Uint128::new(2 * d), limit: Uint128::zero(), funds: None }).tx.ok);
+    r.w.next_block(1000);
+    assert!(r.w.update_vamm(0, None, None, None, None, Some(Uint128::new(d / 20)), None).ok);
+    r.w.next_block(15);
+    // the block under test
+    assert!(r.step(Op::Open { who: CAROL, side: Side::Sell, margin: Uint128::new(d / 10), lev: Uint128::new(d), limit: Uint128::zero(), funds: None }).tx.ok);
+    let t = r.step(Op::Liquidate { by: LIQ, trader: EVE, limit: Uint128::zero() });
+    if !t.tx.ok {
+        symrt::log_event(format!("liquidation failed: {}", crate::sx::norm(&t.tx.err)));
+        return;
+    }
+    let over = r.w.over_fluct(0, margined_perp::margined_vamm::Direction::RemoveFromAmm, r.w.position(0, CAROL).unwrap().size.value).unwrap_or(false);
+    symrt::log_event(format!("whole close would leave the band: {}", over));
+    symrt::set_full(true);
+    let dump0 = r.w.dump();
+    let t = r.step(Op::Close { who: CAROL, limit: Uint128::zero() });
+    let what = format!("carol topped up, eve liquidated, carol closes (partial arm: {})", over);
+    prove_d("C16/second-action-in-liquidation-block-rejected", Cond::from_bool(!t.tx.ok), what.clone());
+    mon::dump_unchanged("C16/rejected-second-action-changes-no-storage", &dump0, &r.w.dump(), &what);
+}
+
 pub fn scenarios(seed: u64) -> Vec<Scenario> {
     let mut v = vec![];
     let de = "staged liquidatable position; all event sequences over {open by bob/liquidator(long,short)/bystander/alice, close by bob/liquidator, liquidate alice, next block} containing a liquidation; concrete amounts (pure enumeration of orderings and block boundaries)";
@@ -315,6 +349,7 @@ pub fn scenarios(seed: u64) -> Vec<Scenario> {
     }
     v.push(sc("C16", Tier::Quick, "c16.enum.len3.partial-zero-fee", de, 5, 150, enumerate_zero_fee(3, 1, 0)));
     v.push(sc("C16", Tier::Thorough, "c16.enum.len4.sample.partial-zero-fee", de, 5, 300, enumerate_zero_fee(4, 23, (seed as usize) % 23)));
+    v.push(sc("C16", Tier::Quick, "c16.pclose.as-second-action", "a large trader tops up in the liquidation block, a small position is partially liquidated inside the 5% band, then the large trader's ClosePosition (which would take the partial arm) must be rejected", 50, 60, pclose_as_second_action));
     v.push(sc("C16", Tier::Quick, "c16.pclose.before-liq", "a partial close (5% price band + 25% fraction) is the first action of a trader in a block in which a liquidation follows: the record is stamped, a second action is rejected", 200, 90, pclose_then_second_action(false)));
     v.push(sc("C16", Tier::Thorough, "c16.pclose.after-liq", "the same with the liquidation first (it usually leaves the band, which rejects the close for that reason)", 200, 90, pclose_then_second_action(true)));
     for which in 0..2usize {
